@@ -5,6 +5,7 @@
    same branches):
 
      dispatch_io_set_low_water / set_high_water   SetLowP / SetHighP (the clamping rules)
+     dispatch_io_set_interval (+ STRICT_INTERVAL)  CSetInterval, TimerPost / SqTimer
      dispatch_io_read / dispatch_io_write          CSubmit  -> block on the channel queue
      _dispatch_operation_create                    ChqStep "op"   (get_error, length 0, snapshot
                                                    of the channel's water marks)
@@ -50,7 +51,7 @@
    the serial-queue assumption on op_q; on the real library it is checked by the harness oracle.
    Not modelled: DISPATCH_IO_RANDOM channels, the disk engine's read-ahead (a stream channel
    on a regular file runs its operations through fd_entry->stream_ops in the same FIFO
-   discipline), interval timers, several channels on one descriptor.
+   discipline), several channels that are used at the same time on one descriptor.
 
    Model-checking reduction: every client call except close(DISPATCH_IO_STOP) only appends a
    block to the channel queue, so it commutes with all library and kernel steps; the client
@@ -110,7 +111,7 @@ VARIABLES
   \* client
   cstate, mode, nops, nbars, nsetl, nseth, closeCall, stopCall, released, wsub,
   \* channel
-  flags, clow, chigh, chFd,
+  flags, clow, chigh, cint, chFd,
   \* queues and stream state
   chq, bq, bqSusp, sq, pend, sops, cur, srcRun,
   \* operations, their op_q, group, fd_entry references (close queue suspensions)
@@ -124,7 +125,7 @@ VARIABLES
   cacc, cerr, cuser, cres
 
 cvars == <<cstate, mode, nops, nbars, nsetl, nseth, closeCall, stopCall, released, wsub>>
-chvars == <<flags, clow, chigh, chFd>>
+chvars == <<flags, clow, chigh, cint, chFd>>
 stvars == <<sq, pend, sops, cur, srcRun>>
 libvars == <<op, opq, grp, fdref, dord>>
 clvars == <<clq, cleanupRuns>>
@@ -139,7 +140,7 @@ NoPend == [o |-> 0, res |-> "none"]
 
 NoneOp == [st |-> "none", dir |-> "R", len |-> 0, wdata |-> <<>>, low |-> 0, high |-> 0,
            data |-> <<>>, hasbuf |-> FALSE, bufsiz |-> 0, buflen |-> 0, buf |-> <<>>,
-           undel |-> 0, total |-> 0, err |-> 0, ac |-> FALSE, conv |-> FALSE]
+           undel |-> 0, total |-> 0, err |-> 0, ac |-> FALSE, conv |-> FALSE, ival |-> "off", tf |-> 0]
 
 RECURSIVE SumInv(_)
 SumInv(S) == IF S = {} THEN 0 ELSE LET o == CHOOSE x \in S : TRUE IN ninv[o] + SumInv(S \ {o})
@@ -155,7 +156,7 @@ Init ==
   /\ cuser = [o \in Ops |-> "none"] /\ cres = [o \in Ops |-> NoRes]
   /\ cstate = "burst" /\ nops = 0 /\ nbars = 0 /\ nsetl = 0 /\ nseth = 0
   /\ closeCall = FALSE /\ stopCall = FALSE /\ released = FALSE /\ wsub = 0
-  /\ flags = {} /\ clow = Chunk /\ chigh = INF /\ chFd = ~ConvMode
+  /\ flags = {} /\ clow = Chunk /\ chigh = INF /\ cint = "off" /\ chFd = ~ConvMode
   /\ chq = <<>> /\ bq = <<>> /\ bqSusp = 0
   /\ sq = [d \in Dirs |-> <<>>] /\ pend = [d \in Dirs |-> NoPend]
   /\ sops = [d \in Dirs |-> <<>>] /\ cur = [d \in Dirs |-> 0] /\ srcRun = [d \in Dirs |-> FALSE]
@@ -188,6 +189,14 @@ CSetHigh(v) ==
   /\ chq' = Append(chq, Blk("sethigh", 0, v))
   /\ nseth' = nseth + 1 /\ Log("high", v, 0)
   /\ UNCHANGED <<cstate, mode, nops, nbars, nsetl, closeCall, stopCall, released, wsub, chvars, bq,
+                 bqSusp, stvars, libvars, bars, clvars, kvars, hvars, gvars, convvars>>
+
+\* dispatch_io_set_interval(channel, ns > 0, flags): v = "strict" (DISPATCH_IO_STRICT_INTERVAL) | "lax"
+CSetInterval(v) ==
+  /\ ~released
+  /\ chq' = Append(chq, Blk("setival", 0, v))
+  /\ Log("interval", IF v = "strict" THEN 1 ELSE 0, 0)
+  /\ UNCHANGED <<cstate, mode, nops, nbars, nsetl, nseth, closeCall, stopCall, released, wsub, chvars, bq,
                  bqSusp, stvars, libvars, bars, clvars, kvars, hvars, gvars, convvars>>
 
 \* dispatch_io_read(channel, 0, n, q, handler) / dispatch_io_write(channel, 0, data, q, handler);
@@ -241,7 +250,7 @@ CStop ==
      ELSE /\ flags' = flags \cup {"stopped"}
           /\ chq' = Append(chq, Blk("stopc", 0, 0))
   /\ Log("stop", 0, 0)
-  /\ UNCHANGED <<mode, nops, nbars, nsetl, nseth, closeCall, released, wsub, clow, chigh, chFd, bq,
+  /\ UNCHANGED <<mode, nops, nbars, nsetl, nseth, closeCall, released, wsub, clow, chigh, cint, chFd, bq,
                  bqSusp, stvars, libvars, bars, clvars, kvars, hvars, gvars, convvars>>
 
 \* dispatch_release(channel): the client's reference
@@ -258,18 +267,21 @@ ChqStep ==
      CASE b.k = "setlow" ->
             LET p == SetLowP(clow, chigh, b.v) IN
             /\ clow' = p.low /\ chigh' = p.high
-            /\ UNCHANGED <<flags, chFd, bq, op, bars>>
+            /\ UNCHANGED <<flags, cint, chFd, bq, op, bars>>
        [] b.k = "sethigh" ->
             LET p == SetHighP(clow, chigh, b.v) IN
             /\ clow' = p.low /\ chigh' = p.high
-            /\ UNCHANGED <<flags, chFd, bq, op, bars>>
+            /\ UNCHANGED <<flags, cint, chFd, bq, op, bars>>
+       [] b.k = "setival" ->
+            /\ cint' = b.v
+            /\ UNCHANGED <<flags, clow, chigh, chFd, bq, op, bars>>
        [] b.k = "op" ->   \* _dispatch_operation_create, on the channel queue
             LET o == b.o
                 err == IF flags # {} THEN ECANCELED ELSE 0 IN
             /\ IF err # 0 \/ op[o].len = 0
                THEN /\ op' = [op EXCEPT ![o].st = "imm"]
                     /\ bq' = Append(bq, Blk("imm", o, err))
-               ELSE /\ op' = [op EXCEPT ![o].st = "created", ![o].low = clow, ![o].high = chigh]
+               ELSE /\ op' = [op EXCEPT ![o].st = "created", ![o].low = clow, ![o].high = chigh, ![o].ival = cint]
                     /\ bq' = Append(bq, Blk("enq", o, 0))
             /\ UNCHANGED <<chvars, bars>>
        [] b.k \in {"close", "stopc"} ->
@@ -415,14 +427,14 @@ BqStep ==
             THEN /\ flags' = {"closed"}
                  /\ chFd' = FALSE
                  /\ fdref' = IF chFd THEN fdref - 1 ELSE fdref
-                 /\ UNCHANGED <<clow, chigh, bqSusp, sq, bars, op, opq, grp, dord>>
+                 /\ UNCHANGED <<clow, chigh, cint, bqSusp, sq, bars, op, opq, grp, dord>>
             ELSE UNCHANGED <<chvars, bqSusp, sq, bars, libvars>>
        [] b.k = "stopc" ->   \* the barrier-queue block of _dispatch_io_stop
             IF chFd
             THEN /\ sq' = [d \in Dirs |-> Append(sq[d], Blk("cleanup", 0, 0))]
                  /\ chFd' = IF "closed" \in flags THEN chFd ELSE FALSE
                  /\ fdref' = fdref + 2 - (IF "closed" \in flags THEN 0 ELSE 1)
-                 /\ UNCHANGED <<flags, clow, chigh, bqSusp, bars, op, opq, grp, dord>>
+                 /\ UNCHANGED <<flags, clow, chigh, cint, bqSusp, bars, op, opq, grp, dord>>
             ELSE IF clq = "held"   \* stop after close: the fd_entry is still in the table
             THEN /\ sq' = [d \in Dirs |-> Append(sq[d], Blk("cleanup", 0, 0))]
                  /\ fdref' = fdref + 2
@@ -476,6 +488,29 @@ SqCleanup(d) ==
   /\ srcRun' = [srcRun EXCEPT ![d] = FALSE]
   /\ sq' = [sq EXCEPT ![d] = Tail(@)]
   /\ UNCHANGED <<cvars, chvars, chq, bq, bqSusp, pend, bars, clvars, kvars, hvars, gvars, convvars, sched>>
+
+\* The interval timer of an operation (created and resumed in _dispatch_operation_should_enqueue,
+\* cancelled when the operation completes) targets the stream queue.  Its handler delivers what
+\* has accumulated: with DISPATCH_IO_STRICT_INTERVAL unconditionally (even an empty data object),
+\* otherwise under the usual low-water rule.  (op->active is only ever set by the disk engine.)
+\* TimerMax bounds the firings per operation in model checking.
+TimerMax == IF TraceMode THEN INF ELSE 1
+TimerQueued(d, o) == \E i \in 1 .. Len(sq[d]) : sq[d][i].k = "timer" /\ sq[d][i].o = o
+TimerPost(o) ==
+  /\ op[o].st = "listed" /\ op[o].ival # "off" /\ op[o].tf < TimerMax
+  /\ ~TimerQueued(op[o].dir, o)
+  /\ sq' = [sq EXCEPT ![op[o].dir] = Append(@, Blk("timer", o, 0))]
+  /\ op' = [op EXCEPT ![o].tf = IF TraceMode THEN 0 ELSE @ + 1]
+  /\ UNCHANGED <<cvars, chvars, chq, bq, bqSusp, pend, sops, cur, srcRun, opq, grp, fdref, dord, bars, clvars,
+                 kvars, hvars, gvars, convvars, sched>>
+SqTimer(d) ==
+  /\ SqHead(d, "timer")
+  /\ sq' = [sq EXCEPT ![d] = Tail(@)]
+  /\ LET o == Head(sq[d]).o IN
+     IF op[o].st # "listed" THEN UNCHANGED libvars        \* dispatch_source_testcancel(timer)
+     ELSE \E stopped \in StopViews :
+          SetLib(DeliverIn(LibS, o, IF op[o].ival = "strict" THEN {"deliver"} ELSE {}, stopped, "strict"))
+  /\ UNCHANGED <<cvars, chvars, chq, bq, bqSusp, pend, sops, cur, srcRun, bars, clvars, kvars, hvars, gvars, convvars, sched>>
 
 \* _dispatch_stream_pick_next_operation (stream-type operations only)
 PickOne(c, list) == IF c # 0 THEN c
@@ -690,7 +725,7 @@ ChannelIdle == /\ chq = <<>> /\ bq = <<>>
 ChannelDispose ==
   /\ released /\ chFd /\ flags = {} /\ ChannelIdle
   /\ chFd' = FALSE /\ fdref' = fdref - 1
-  /\ UNCHANGED <<cvars, flags, clow, chigh, chq, bq, bqSusp, stvars, op, opq, grp, dord, bars, clvars, kvars, hvars, gvars, convvars, sched>>
+  /\ UNCHANGED <<cvars, flags, clow, chigh, cint, chq, bq, bqSusp, stvars, op, opq, grp, dord, bars, clvars, kvars, hvars, gvars, convvars, sched>>
 
 (* ------------------------------ the peer / kernel environment ------------------------------ *)
 PeerWrite(k) ==
@@ -722,6 +757,7 @@ ClientBurst ==
   /\ cstate = "burst"
   /\ \/ /\ "low" \in Feat /\ nsetl = 0 /\ nops = 0 /\ \E v \in Marks : CSetLow(v)
      \/ /\ "high" \in Feat /\ nseth = 0 /\ nops = 0 /\ \E v \in Marks : CSetHigh(v)
+     \/ /\ "ival" \in Feat /\ cint = "off" /\ chq = <<>> /\ nops = 0 /\ \E v \in {"strict", "lax"} : CSetInterval(v)
      \/ /\ mode = "chan" /\ "R" \in UseDirs /\ \E n \in Lens : CSubmit(nops + 1, "R", n, <<>>)
      \/ /\ mode = "chan" /\ "W" \in UseDirs /\ \E n \in Lens \ {0, INF} : \E regs \in WriteRegs(n) : CSubmit(nops + 1, "W", n, regs)
      \/ /\ mode = "chan" /\ "W" \in UseDirs /\ 0 \in Lens /\ CSubmit(nops + 1, "W", 0, <<>>)
@@ -737,8 +773,8 @@ ClientStop == /\ cstate = "run" /\ mode = "chan" /\ "stop" \in Feat /\ ~stopCall
               /\ CStop /\ cstate' = "burst"
 
 Lib == \/ ChqStep \/ BqStep
-       \/ \E d \in Dirs : SqSenq(d) \/ SqCleanup(d) \/ SqPick(d) \/ SqSyscall(d, AllK) \/ SqFinish(d) \/ SourceFire(d)
-       \/ \E o \in Ops : HandlerRun(o) \/ ConvRun(o)
+       \/ \E d \in Dirs : SqSenq(d) \/ SqCleanup(d) \/ SqPick(d) \/ SqSyscall(d, AllK) \/ SqFinish(d) \/ SourceFire(d) \/ SqTimer(d)
+       \/ \E o \in Ops : HandlerRun(o) \/ ConvRun(o) \/ TimerPost(o)
        \/ \E b \in Bars : BarrierStart(b) \/ BarrierEnd(b)
        \/ CloseQRun \/ CleanupRun \/ ChannelDispose
 
@@ -757,7 +793,7 @@ Spec == Init /\ [][Next]_vars
    closes (EOF) and keeps draining (or hangs up) *)
 Fair == /\ WF_vars(ChqStep) /\ WF_vars(BqStep)
         /\ \A d \in Dirs : /\ WF_vars(SqSenq(d)) /\ WF_vars(SqCleanup(d)) /\ WF_vars(SqPick(d)) /\ WF_vars(SqSyscall(d, AllK))
-                           /\ WF_vars(SqFinish(d)) /\ WF_vars(SourceFire(d))
+                           /\ WF_vars(SqFinish(d)) /\ WF_vars(SourceFire(d)) /\ WF_vars(SqTimer(d))
         /\ \A o \in Ops : WF_vars(HandlerRun(o)) /\ WF_vars(ConvRun(o))
         /\ \A b \in Bars : WF_vars(BarrierStart(b)) /\ WF_vars(BarrierEnd(b))
         /\ WF_vars(CloseQRun) /\ WF_vars(CleanupRun) /\ WF_vars(ChannelDispose)
